@@ -6,6 +6,7 @@ import (
 	"errors"
 	"fmt"
 	"sort"
+	"strings"
 
 	"github.com/buildbuildio/pebbles/common"
 	"github.com/buildbuildio/pebbles/queryer"
@@ -202,7 +203,7 @@ func introspectRemoteSchema(factory QueryerFactory, url string) (*ast.Schema, er
 	}
 
 	// Reformat schema
-	schemaStr := formatSchema(schema)
+	schemaStr := formatSchema(schema) + defaultNamedRootsExtension(schema)
 
 	formattedSchema, perr := gqlparser.LoadSchema(&ast.Source{Name: url, Input: schemaStr})
 	if perr != nil {
@@ -252,6 +253,40 @@ func findCutOffTypeRef(schema *ast.Schema) string {
 	}
 
 	return ""
+}
+
+// defaultNamedRootsExtension lists the root types which have default names when some other root type is renamed:
+// the formatter writes a schema block as soon as one root type is renamed, leaves the default named ones out of it,
+// and the loader then takes only the listed root types
+func defaultNamedRootsExtension(schema *ast.Schema) string {
+	roots := []struct {
+		operation   string
+		defaultName string
+		definition  *ast.Definition
+	}{
+		{"query", "Query", schema.Query},
+		{"mutation", "Mutation", schema.Mutation},
+		{"subscription", "Subscription", schema.Subscription},
+	}
+
+	var renamed bool
+	var missing []string
+	for _, root := range roots {
+		if root.definition == nil {
+			continue
+		}
+		if root.definition.Name != root.defaultName {
+			renamed = true
+			continue
+		}
+		missing = append(missing, "\t"+root.operation+": "+root.defaultName)
+	}
+
+	if !renamed || len(missing) == 0 {
+		return ""
+	}
+
+	return "\nextend schema {\n" + strings.Join(missing, "\n") + "\n}\n"
 }
 
 func formatSchema(schema *ast.Schema) string {
